@@ -65,6 +65,8 @@ def main():
                 if a.prop and prop != a.prop:
                     continue
                 cmd = [os.path.join(VERIF, "check.py"), prop, "--no-evidence"]
+                if m.get("expect", "detected") == "detected":
+                    cmd += ["--stop-after", "3"]       # the verdict is the exit code; no need to finish the batch
                 if a.runs or m.get("runs"):
                     cmd += ["--runs", str(a.runs or m["runs"])]
                 t0 = time.time()
